@@ -1,7 +1,7 @@
 //! Seeded workload generators: one integer -> one case (scenario, parameters, policy, fault plan).
 
 use crate::case::{Case, DItem, Descend, Mode, Sweep, Walks, GK};
-use crate::corpus::{Root, ODD_FENS, PERPETUALS, ROOTS, SIBLINGS};
+use crate::corpus::{Root, MOVE_TWINS, ODD_FENS, PERPETUALS, ROOTS, SIBLINGS};
 use crate::model::Pos;
 use crate::verif_shim::sched::{splitmix, Policy};
 
@@ -57,7 +57,19 @@ pub fn walk(rng: &mut Rng, root: &str, n: u64) -> Vec<String> {
         if l.is_empty() {
             break;
         }
-        let m = rng.pick(&l).clone();
+        let mut m = rng.pick(&l).clone();
+        if rng.chance(1, 3) {
+            // prefer a capture now and then: trades on home corners, promotions with capture, recaptures
+            for _ in 0..8 {
+                let c = rng.pick(&l).clone();
+                let mut q = p.clone();
+                q.play(&c);
+                if q.piece_count() < p.piece_count() {
+                    m = c;
+                    break;
+                }
+            }
+        }
         p.play(&m);
         out.push(m);
     }
@@ -1360,6 +1372,21 @@ pub fn gen_sibling_pairs(prop: &str, seed: u64) -> Case {
     let mut rng = Rng::new(seed, 0x51b);
     let mut case = Case::new(prop, "direct-sibling-positions", seed, Mode::Direct);
     direct_params(&mut case, 400_000);
+    if rng.chance(1, 4) {
+        // twins reached by moves: the en-passant right exists in one line only
+        case.family = "direct-move-reached-twins".into();
+        let (root, a, b) = *rng.pick(MOVE_TWINS);
+        let la: Vec<String> = a.split_ascii_whitespace().map(|x| x.to_string()).collect();
+        let lb: Vec<String> = b.split_ascii_whitespace().map(|x| x.to_string()).collect();
+        let d = rng.range(1, 4) as u8;
+        let (first, second) = if rng.chance(3, 4) { (la, lb) } else { (lb, la) };
+        case.items.push(ditem(root, &first, Some(d), None));
+        case.items.push(ditem(root, &second, Some(if rng.chance(3, 4) { d } else { rng.range(1, d as u64) as u8 }), None));
+        if rng.chance(1, 2) {
+            case.items.push(ditem(root, &first, Some(rng.range(1, 4) as u8), None));
+        }
+        return case;
+    }
     for _ in 0..rng.range(1, 2) {
         let grp = *rng.pick(SIBLINGS);
         let d = rng.range(1, 3) as u8;
@@ -1447,7 +1474,18 @@ pub fn gen(prop: &str, seed: u64, thorough: bool) -> Case {
         "C07" => gen_c07(seed, thorough),
         "C08" => gen_c08(seed, thorough),
         "C13" => {
-            if seed % 16 == 13 {
+            if seed % 32 == 29 {
+                // self-play: every move has `ms` of thinking time; its timer must end the move's search
+                let mut rng = Rng::new(seed, 0x13a);
+                let mut case = Case::new("C13", "selfplay-timed", seed, Mode::Autoplay);
+                case.params.policy = rng.pick(&[Policy::Np, Policy::Rw(50), Policy::Rw(300), Policy::Pct(2)]).clone();
+                case.params.fair = *rng.pick(&[2u32, 8, 64]);
+                case.params.node_cost = *rng.pick(&[100_000u64, 1_000_000]);
+                case.autoplay_ms = rng.range(0, 8);
+                case.params.max_polls = 6_000;
+                case.params.max_steps = 200_000;
+                case
+            } else if seed % 16 == 13 {
                 gen_c13_extreme(seed)
             } else {
                 gen_c13(seed, thorough)
